@@ -282,6 +282,35 @@ theorem crop_keeps_exactly_closed_range (lo hi : ℚ) (s : Spectrum) (h : WF s) 
           exact ⟨h1, h2, le_trans (le_getLast_of_strictInc _ _ wf1.1 hwl x ((st1 x).mpr ⟨h1, h2⟩)) (not_lt.mp hhi)⟩
         · rintro ⟨h1, h2, _⟩; exact ⟨h1, h2⟩
 
+/-- trim keeps exactly the samples from the first to the last one whose value, relative to the maximum, exceeds the
+tolerance; when no sample does, the call raises IndexError and the spectrum is left as it was -/
+theorem trim_first_to_last_above_tol (tol : ℚ) (s : Spectrum) (m : ℚ)
+    (hz : s.value.all (· == 0) = false) (hm : maxL s.value = some m) (hpos : 0 < m) :
+    (∃ a b, trim tol s = (⟨slice a b s.wave, slice a b s.value⟩, none) ∧
+       (∃ v, s.value[a]? = some v ∧ v / m > tol) ∧ (∀ j, j < a → ∀ v, s.value[j]? = some v → ¬ v / m > tol) ∧
+       (∃ v, s.value[b]? = some v ∧ v / m > tol) ∧ (∀ j, b < j → ∀ v, s.value[j]? = some v → ¬ v / m > tol))
+    ∨ (trim tol s = (s, some .indexError) ∧ ∀ v ∈ s.value, ¬ v / m > tol) := by
+  have hnp : ¬ m ≤ 0 := not_le.mpr hpos
+  simp only [trim, hz, hm, hnp, Bool.false_eq_true, if_false]
+  cases hf : firstIdx (fun v : ℚ => decide (v / m > tol)) s.value with
+  | none =>
+    right
+    refine ⟨rfl, fun v hv => ?_⟩
+    simpa using firstIdx_none _ _ hf v hv
+  | some a =>
+    cases hl : lastIdx (fun v : ℚ => decide (v / m > tol)) s.value with
+    | none =>
+      right
+      refine ⟨rfl, fun v hv => ?_⟩
+      simpa using lastIdx_none _ _ hl v hv
+    | some b =>
+      left
+      obtain ⟨⟨va, hva, hpa⟩, hlta⟩ := firstIdx_spec _ _ _ hf
+      obtain ⟨⟨vb, hvb, hpb⟩, hltb⟩ := lastIdx_spec _ _ _ hl
+      refine ⟨a, b, rfl, ⟨va, hva, by simpa using hpa⟩, ?_, ⟨vb, hvb, by simpa using hpb⟩, ?_⟩
+      · intro j hj v hv; simpa using hlta j hj v hv
+      · intro j hj v hv; simpa using hltb j hj v hv
+
 /-- non-vacuity: a history with an accepted crop, a refused append and an accepted pad -/
 example : run ⟨[1, 2, 4, 8], [5, 6, 7, 8]⟩ [.crop 2 5, .append ⟨[3, 9], [1, 1]⟩, .pad 1 6 none false 0 0]
     = ⟨[1, 2, 4, 6], [0, 6, 7, 0]⟩ := by decide +kernel
